@@ -5,7 +5,7 @@ set -u
 patch=$(realpath "$1"); shift
 d=$(mktemp -d /tmp/govc-mut-XXXXXX)
 trap 'rm -rf "$d"' EXIT
-rsync -a --exclude .git /repo/ "$d/"
+rsync -a --exclude .git "${MUT_BASE:-/repo}/" "$d/"
 if ! (cd "$d" && patch -p1 -s < "$patch"); then echo "PATCH FAILED"; exit 3; fi
 if [ "${MUT_BUILD:-1}" = 1 ]; then
   (cd "$d" && GOFLAGS=-mod=mod GOPROXY=off go build ./... ) || { echo "BUILD FAILED"; exit 3; }
